@@ -14,7 +14,7 @@
 //   loads    : dumps() + loads() into a fresh visitor does not reproduce the values bit for bit
 //   reinit   : the reused visitor differs from a fresh one given the same init ("reuse-after-failed-init" when an
 //              earlier init of the history threw)
-//   value    : a result is not the value of the output at the inputs (LambdaRealDoubleVisitor reference; tolerance
+//   value    : a result is not the value of the output at the inputs (LambdaRealDoubleVisitor reference, where that is not NaN; tolerance
 //              64 x the spread observed when every input moves by one ulp + 1e-9 relative) -- TESTING
 // <r> = 16 hex digits (bit pattern), NAN for any NaN, EXN:<n> (harness/common.h numbering).
 // The "rewritten" list gives, for every node of a class RewriteTrigVisitor handles, the expression the PUBLIC
@@ -88,6 +88,15 @@ static std::string dblbits(double d)
 {
     if (std::isnan(d))
         return "NAN";
+    uint64_t u;
+    std::memcpy(&u, &d, 8);
+    char buf[32];
+    snprintf(buf, sizeof buf, "%016llx", (unsigned long long)u);
+    return buf;
+}
+
+static std::string rawbits(double d)
+{
     uint64_t u;
     std::memcpy(&u, &d, 8);
     char buf[32];
@@ -228,6 +237,10 @@ static std::string run_history(const std::string &line, int wfd)
     std::unique_ptr<LLVMDoubleVisitor> fresh; // same (opt, cse) on a fresh object
     std::unique_ptr<LLVMDoubleVisitor> loaded; // dumps() / loads()
     std::unique_ptr<LambdaRealDoubleVisitor> lam;
+    std::unique_ptr<LLVMFloatVisitor> fvis;       // the float evaluator (testing only)
+#ifdef SYMENGINE_HAVE_LLVM_LONG_DOUBLE
+    std::unique_ptr<LLVMLongDoubleVisitor> lvis;  // the long double evaluator (testing only; needs MPFR for rationals/constants)
+#endif
     bool first = true;
     for (const std::string &op0 : ops) {
         std::string op = trim(op0);
@@ -246,10 +259,10 @@ static std::string run_history(const std::string &line, int wfd)
             io.cse = hd[1] == "1";
             try {
                 for (auto &r : split_sep(parts[1], " ;; "))
-                    if (!trim(r).empty())
+                    if (!trim(r).empty() && trim(r) != "-")
                         io.ins.push_back(recipe(r));
                 for (auto &r : split_sep(parts[2], " ;; "))
-                    if (!trim(r).empty())
+                    if (!trim(r).empty() && trim(r) != "-")
                         io.outs.push_back(recipe(r));
             } catch (...) {
                 emit("RECIPE-" + verif::exn_name());
@@ -258,9 +271,13 @@ static std::string run_history(const std::string &line, int wfd)
             std::string s = "I " + hd[0] + " " + hd[1] + " ::";
             for (size_t i = 0; i < io.ins.size(); i++)
                 s += (i ? " ;; " : " ") + verif::dump(*io.ins[i]);
+            if (io.ins.empty())
+                s += " -";
             s += " ::";
             for (size_t i = 0; i < io.outs.size(); i++)
                 s += (i ? " ;; " : " ") + verif::dump(*io.outs[i]);
+            if (io.outs.empty())
+                s += " -";
             s += " :: ";
             std::map<std::string, std::string> rw;
             vec_basic visited = io.outs;
@@ -296,6 +313,8 @@ static std::string run_history(const std::string &line, int wfd)
                 s += (f1 ? " " : " ;; ") + kv.first + " ;; " + kv.second;
                 f1 = false;
             }
+            if (rw.empty())
+                s += " -";
             emit(s + " => ");
             std::string r = llvm_init(v, io, io.opt, io.cse);
             emit(r);
@@ -306,6 +325,10 @@ static std::string run_history(const std::string &line, int wfd)
             fresh.reset();
             loaded.reset();
             lam.reset();
+            fvis.reset();
+#ifdef SYMENGINE_HAVE_LLVM_LONG_DOUBLE
+            lvis.reset();
+#endif
             emit("~");
             {
                 // a fresh object must accept / reject the same init
@@ -347,6 +370,21 @@ static std::string run_history(const std::string &line, int wfd)
                 } catch (...) {
                     lam.reset();
                 }
+                try {
+                    fvis.reset(new LLVMFloatVisitor());
+                    fvis->init(io.ins, io.outs, io.cse, io.opt);
+                } catch (...) {
+                    oracle += " float-init(" + verif::exn_name() + ")";
+                    fvis.reset();
+                }
+#ifdef SYMENGINE_HAVE_LLVM_LONG_DOUBLE
+                try {
+                    lvis.reset(new LLVMLongDoubleVisitor());
+                    lvis->init(io.ins, io.outs, io.cse, io.opt);
+                } catch (...) {
+                    lvis.reset(); // Rational / Constant leaves need MPFR in this variant: not an error of this configuration
+                }
+#endif
             } else {
                 failed_before = true;
             }
@@ -357,7 +395,7 @@ static std::string run_history(const std::string &line, int wfd)
                 inp.push_back(verif::dbl_of_hex(h));
             std::string s = "C";
             for (double x : inp)
-                s += " " + dblbits(x);
+                s += " " + rawbits(x);
             emit(s + " => ");
             if (!have_init || !last_ok || inp.size() != last.ins.size()) {
                 emit("SKIP");
@@ -420,8 +458,43 @@ static std::string run_history(const std::string &line, int wfd)
             };
             if (have_ref) {
                 for (size_t i = 0; i < nout; i++)
-                    if (!close(outs[i], ref[i], i))
+                    if (!std::isnan(ref[i]) && !close(outs[i], ref[i], i)) // a NaN reference: the output has no value there
                         oracle += " value(output " + std::to_string(i) + ": llvm " + dblbits(outs[i]) + " lambda " + dblbits(ref[i]) + ")";
+            }
+            // the float / long double evaluators: loose agreement with the double one (testing)
+            if (have_ref) {
+                auto loose = [&](double a, double b, size_t i, double eps) {
+                    if (std::isnan(a) || std::isnan(b) || std::isinf(a) || std::isinf(b) || std::isinf(spread[i]))
+                        return true;
+                    double tol = eps * (1.0 + std::fabs(b)) + eps / 1e-16 * 64 * spread[i];
+                    return std::fabs(a - b) <= tol;
+                };
+                if (fvis) {
+                    std::vector<float> fi(inp.begin(), inp.end()), fo(nout, 0.0f);
+                    if (fi.empty())
+                        fi.push_back(0.0f);
+                    bool exact_in = true;
+                    for (size_t k = 0; k < inp.size(); k++)
+                        if ((double)fi[k] != inp[k])
+                            exact_in = false;
+                    if (exact_in) {
+                        fvis->call(fo.data(), fi.data());
+                        for (size_t i = 0; i < nout; i++)
+                            if (!loose((double)fo[i], outs[i], i, 1e-4))
+                                oracle += " float(output " + std::to_string(i) + ": float " + dblbits((double)fo[i]) + " double " + dblbits(outs[i]) + ")";
+                    }
+                }
+#ifdef SYMENGINE_HAVE_LLVM_LONG_DOUBLE
+                if (lvis) {
+                    std::vector<long double> li(inp.begin(), inp.end()), lo(nout, 0.0L);
+                    if (li.empty())
+                        li.push_back(0.0L);
+                    lvis->call(lo.data(), li.data());
+                    for (size_t i = 0; i < nout; i++)
+                        if (!loose((double)lo[i], outs[i], i, 1e-10))
+                            oracle += " longdouble(output " + std::to_string(i) + ": long double " + dblbits((double)lo[i]) + " double " + dblbits(outs[i]) + ")";
+                }
+#endif
             }
             for (auto &va : variants) {
                 std::vector<double> ov = llvm_call(*va.v, inp, nout);
